@@ -22,7 +22,8 @@ CLAIMED = {
              "mechanism the property rests on, not value equality of resolved configurations."
              " The value stored in the cache is the value returned; component names are escaped in invalidation patterns; the guard pins ignore_convert_errors as well."
          " A clear-then-refill of a stored object cannot fail between the clear and the invalidation."
-         " A mutator that creates a platform's variables leaves it with every scope the readers require.",
+         " A mutator that creates a platform's variables leaves it with every scope the readers require."
+         " No instance attribute other than the tracked cache memoises a value derived from the description unless every relevant writer rebinds it.",
         technique="CFG-based flow-sensitive may-alias + effect analysis (write => invalidate), who-may-write, "
                   "cache-key coverage",
         design="3/C08"),
@@ -56,7 +57,8 @@ CLAIMED["C02"] = dict(
          " Every component that is stopped by finishedCheck has an observer first (the gate is exactly 'not staged in')."
          " The first final state of a component stays: finish() assigns or schedules a final state only when none of FINISHED/FAILED/SHUTDOWN is set yet. One reproduced race (a stop within ~5 s after a restart) is listed as an observed known finding - it is not decided statically."
          " Outside finish() the controller never replaces a final state: a transient controllerState is set only where none is set and undone only where it is still there. A second observed known finding (ordering-dependent final state of a repeating observer) is listed."
-         " The resubmission test that decides 'unrecoverable' is strict against the documented cap 5 (shared with C12).",
+         " The resubmission test that decides 'unrecoverable' is strict against the documented cap 5 (shared with C12)."
+         " The requested final state is stored before engine.shutdown() is called (the call can raise).",
     technique="statement CFG with handler/finally modelling: must-pass-through, per-path call counting, branch-table "
               "recognition",
     design="3/C02")
@@ -72,7 +74,8 @@ CLAIMED["C12"] = dict(
          "argument on the loop-free restart function this bounds restarts for every exit-reason sequence and hook outcome."
          " A relaunch starts from reset per-execution fields; the repeating engine's single restart respects maxRestarts; every caller of _restartComponent gives a final state for every refusal code."
          " The subject that Engine.__init__ subscribes the kill-before-run handler to is re-created only when the engine is dead; the restart hook's call is enclosed by handlers for Exception and SystemExit; the repeating engine's restart also needs the reason to be listed in restartHookOn."
-         " The reason handed to component.restart() in the post-mortem path is the exit reason the controller's guards tested, never a substituted constant.",
+         " The reason handed to component.restart() in the post-mortem path is the exit reason the controller's guards tested, never a substituted constant."
+         " The relaunch is gated by a test of the shutdown flag that follows the restart hook.",
     technique="CFG edge-dominance, reaching definitions, value-class product reachability, linear comparison "
               "normalisation, who-may-write",
     design="3/C12")
@@ -89,7 +92,8 @@ CLAIMED["C13"] = dict(
          " The success test of the decision reads the task generated in the same pass and never a None."
          " The cutoff of the new-output test is the recorded launch time of the previous execution (or a min including it); 'no retries left' holds for every non-positive counter."
          " The producers-finished stream is built from the producer components' notifyFinished (not the engines'); the flag is snapshotted before the new-output test of the pass. Two observed known findings are listed."
-         " Inside canConsume no test of producer output is reachable after a store of a non-False value into the sticky flag.",
+         " Inside canConsume no test of producer output is reachable after a store of a non-False value into the sticky flag."
+         " Every failure of the task generator reaches the decision block; the cutoff of the new-output test is recorded only once a launch succeeded.",
     technique="CFG edge-dominance and must-pass-through, path-consistent product reachability over stable flags, "
               "reaching definitions of the snapshot, who-may-write",
     design="3/C13")
@@ -119,7 +123,8 @@ CLAIMED["C05"] = dict(
          "placeholder's stage and name (component-wise dependence analysis with helper inlining). Holds for every iteration count because it constrains the comparison, not sampled counts."
          " The rewritten loop binding is re-assembled from stage, producer, file and method of the original one."
          " Every occurrence of a reference is rewritten (no count limit at the substitution sites); a skipped placeholder has consumed its instances first. Two reproduced limitations of loop bindings (replicated looped producer, loop-to-loop binding) are listed as observed known findings."
-         " On a restart only the placeholders of stages strictly before the starting stage are frozen.",
+         " On a restart only the placeholders of stages strictly before the starting stage are frozen."
+         " A pattern for the '<iteration>#' prefix admits every decimal number.",
     technique="sibling cross-check lint over sort keys, format/parser agreement, CFG edge-dominance, SUB, "
               "reaching-definition alias analysis (who-may-write)",
     design="3/C05")
@@ -145,7 +150,8 @@ CLAIMED["C19"] = dict(
          "Value equality after a full round trip is not decided."
          " The option tables are static (accessors stateless and fresh, no in-place mutation); writer converters change the case of boolean constants only; the parser neither interpolates nor validates '%'."
          " Optional [Output] keys are written only when not None; the writer emits one stage file per index because the reader requires 0..N-1."
-         " A handler's default replaces only a value whose own look-up failed (no raising statement follows the look-up in the try body); optional [Status] keys are written only when not None.",
+         " A handler's default replaces only a value whose own look-up failed (no raising statement follows the look-up in the try body); optional [Status] keys are written only when not None."
+         " The section-name prefix is taken off with a slice of its length.",
     technique="writer/reader table extraction from dict/lambda literals and an if/elif chain, set comparison",
     design="3/C19")
 
@@ -157,7 +163,8 @@ CLAIMED["C14"] = dict(
          "the first '='). Decides the write discipline for all crash points at once; byte-level outcomes per crash "
          "point and fidelity of unescaped fields are not decided. Four genuine defects were repaired by fix: commits."
          " On reload the value of an escaped key is not normalised (strip/lower), and the listing output.json is derived from is parsed without %-interpolation."
-         " No handler nested inside the write block swallows an I/O error around the writes.",
+         " No handler nested inside the write block swallows an I/O error around the writes."
+         " The temporary path is never the destination on any arm of its definition and the rename is reached on every normal path; the derived listing is read through an open handle.",
     technique="write-open/rename pairing on the CFG (temp-then-rename, rename-on-success-only), purity lint of "
               "serialisers, codec table agreement",
     design="3/C14")
@@ -172,7 +179,8 @@ CLAIMED["C15"] = dict(
          " No function of the load-path modules stores a mutable object into class-level state; de-duplication of variable files keeps the last occurrence."
          " A loop that re-keys a mapping under a normalised key iterates in sorted order."
          " No function of the load path writes into a module-level list/dict/set."
-         " A search loop over a mapping view returns one verdict; re-keying under a function of the key (also through pop) iterates in sorted order; the order-taint scope includes dosini.py.",
+         " A search loop over a mapping view returns one verdict; re-keying under a function of the key (also through pop) iterates in sorted order; the order-taint scope includes dosini.py."
+         " Dictionary comprehensions over unordered collections are order-taint sinks; the load's entry point does not write into its arguments.",
     technique="intra-procedural order-taint (set-typedness inference + sink classification) with a frozen exemption table",
     design="3/C15")
 
@@ -187,7 +195,8 @@ CLAIMED["C04"] = dict(
          "table agreement (schema admits bool/int/float => a string-safe converter exists). Covers every combination "
          "of layers; value equality with an independent resolver is not decided."
          " The flattening used by non-primitive loads lets the same scope win as the live resolver for every definition pattern; its early substitution inside the global/stage layers is a recorded known finding (three constructs)."
-         " The requested platform is passed on at every call between platform-parametrised methods of FlowIRConcrete.",
+         " The requested platform is passed on at every call between platform-parametrised methods of FlowIRConcrete."
+         " Mode flags reach the children of a recursive resolver unchanged; every variable scope gets its own dictionary at load; the blueprint layers are folded unconditionally.",
     technique="statement-order and CFG analysis of the resolver, handler swallow-path analysis, schema/converter "
               "table agreement",
     design="3/C04")
@@ -201,7 +210,8 @@ CLAIMED["C09"] = dict(
          "equalities over all strings are not decided."
          " Reserved-folder collections are decided by a must-inclusion analysis on every path (INCL engine) and the class-level reserved collections are never mutated in place (alias-aware)."
          " Regex alternations over the reference methods try the longer of two methods sharing a prefix first."
-         " A reference is compared with the reserved names segment-wise, never as a text prefix.",
+         " A reference is compared with the reserved names segment-wise, never as a text prefix."
+         " The variable test of the expansion looks at the producer part of the parsed reference.",
     technique="format/split constant agreement, finite truth tables of classifier predicates (sibling cross-check), "
               "CFG edge-dominance",
     design="3/C09")
@@ -214,7 +224,8 @@ CLAIMED["C18"] = dict(
          "error. Decided for every archive and manifest at once; two genuine defects were repaired by fix: commits. The "
          "file-system effect of a concrete archive is not executed."
          " Members that pass through symbolic links of the archive itself are rejected before extraction; files written after the manifest was applied go into folders freshly created by the deployment or have their OWN real path tested to be inside the instance; a content copy is reached only when its destination file is not a link."
-         " The containment test of a link member resolves its target against the directory tarfile resolves it against (member directory for symbolic links, extraction root for hard links).",
+         " The containment test of a link member resolves its target against the directory tarfile resolves it against (member directory for symbolic links, extraction root for hard links)."
+         " The extracted handle is the vetted handle; a symbolic-link member is vetted against the directory it is created in.",
     technique="source-to-sink path-expression analysis (normalisation + containment recognition), CFG dominance, "
               "handler/raise class agreement",
     design="3/C18")
@@ -243,7 +254,8 @@ CLAIMED["C17"] = dict(
          "branch table of environmentWithName ('none' adds nothing, default vs named, unknown names propagate), "
          "platform-over-default layering and lower-casing agreement of readers/writers. Holds for every launch "
          "environment; the resulting dictionary for a concrete combination is not computed."
-         " FlowIRConcrete.instance layers platform over default environments per variable; the launch lookup may only follow an own-variable expansion iterated to a fixpoint (fails on the current tree: known finding C17.R5, chained references).",
+         " FlowIRConcrete.instance layers platform over default environments per variable; the launch lookup may only follow an own-variable expansion iterated to a fixpoint (fails on the current tree: known finding C17.R5, chained references)."
+         " The environment name is dispatched with exact comparisons only.",
     technique="who-may-read classification of os.environ uses, CFG branch-table and handler swallow-path analysis",
     design="3/C17")
 
@@ -260,7 +272,8 @@ CLAIMED["C07"] = dict(
          " The store function writes and publishes on every normal return (no silent early return)."
          " Folder discovery on reload follows the symbolic links that deployment creates."
          " No function of the load path writes into a module-level memo (the loader parses the stored file on every load); default injection tests the key it sets."
-         " The user's variables are re-applied to the stage variables of every platform of the description (shared with C04.R4).",
+         " The user's variables are re-applied to the stage variables of every platform of the description (shared with C04.R4)."
+         " The stored components carry the blueprint layers (folded on every path of the resolver).",
     technique="writer/schema key-set agreement, CFG edge-dominance and statement-order (must-pass-through) checks, "
               "abstract interpretation of dict layering over a finite membership domain (sibling agreement)",
     design="3/C07")
@@ -277,7 +290,8 @@ CLAIMED["C11"] = dict(
          "the model; acceptance => usability for all documents is not decided."
          " The merge hands every key of the component document to the closed-schema check (novel keys are copied whatever their value)."
          " The class-level tables that decide whether a name is a folder or a component are never mutated in place (shared with C09)."
-         " A failed type conversion is swallowed only under ignore_convert_errors or under a test implying a non-empty list of unresolved variables; the inverted guard of FlowIR.validate's per-component validation is a rule-decided known finding.",
+         " A failed type conversion is swallowed only under ignore_convert_errors or under a test implying a non-empty list of unresolved variables; the inverted guard of FlowIR.validate's per-component validation is a rule-decided known finding."
+         " No component leaves an iteration of the validation loop before it was resolved.",
     technique="explicit-raise escape analysis over a name-resolved call graph, call-graph reachability of detectors, "
               "table agreement, CFG must-pass-through",
     design="3/C11")
@@ -294,7 +308,8 @@ CLAIMED["C06"] = dict(
          "producer/consumer relation equals the flattened reference relation for all namespaces and that the result is "
          "accepted by the FlowIR validator need execution and are not decided."
          " The cycle detector's view of the open scopes is maintained symmetrically by enter()/exit(); match objects are tested before use; no while loop of the compiler has a cycle on which nothing changes; split() accepts full prefixes only."
-         " A typed parameter value is returned only for a whole-string reference; the first element of a possibly empty schema list is read only behind an emptiness test.",
+         " A typed parameter value is returned only for a whole-string reference; the first element of a possibly empty schema list is read only behind an emptiness test."
+         " Run-time text inside a regular expression of dsl.py is escaped.",
     technique="explicit-raise escape analysis over a name-resolved call graph, error-collection lint, SUB, naming-loop "
               "uniqueness check",
     design="3/C06")
@@ -312,7 +327,8 @@ CLAIMED["C20"] = dict(
          "the fallback resolution and sends a nan sum to the replaced side; a malformed weight is handled as missing; the monitor's "
          "positional weight list is filled in stage order."
          " Every write of the set the stage selectors read is under the lock; a malformed weight is replaced in the status report too; the loader maps the keys of the status report to stage indices as the status monitor does."
-         " A key-less sorted() counts as stage order only over numeric indices; the replacement writes are preceded by a loop that gives every stage its own dictionary.",
+         " A key-less sorted() counts as stage order only over numeric indices; the replacement writes are preceded by a loop that gives every stage its own dictionary."
+         " A stage without a weight has one written into the report (both normalisation sites read the same report).",
     technique="guard-existence and edge-dominance on the CFG, symbolic shape of the replacement numerators, constant agreement, "
               "sibling cross-check of the two normalisation sites",
     design="3/C20")
